@@ -218,7 +218,20 @@ def run(ctx: core.Ctx) -> core.Result:
         "samples": [{"kind": cases[i][0], "cuts_in_RQ": list(cases[i][1]), "cuts_in_data": list(cases[i][2])[:8], "delay": cases[i][3], "close_at": cases[i][4]} for i in idx],
         "explanation": "every execution runs the real acceptor (provider + association threads) under the simulated transport; states = scheduler steps",
     }
-    return core.Result("model_checking", cov, viol, assumptions=["default (prompt-time) schedule; chunk arrival vs reactor iteration is varied by the inter-chunk delay, not by scheduler deviations", "recv returns at most one sent segment per call (segment boundaries are preserved by the simulated transport)"])
+    # the simulated transport / queue / event / thread doubles against the OS (vk/fidelity.py)
+    notes = []
+    try:
+        from vk import fidelity
+
+        n_seq, bad = fidelity.run_all()
+        cov["fidelity_sequences"] = n_seq
+        cov["fidelity_sequences_agreeing_with_os"] = n_seq - len(bad)
+        for name, real, simr in bad:
+            notes.append(f"HARNESS-WARNING fidelity mismatch in {name}: OS {real} vs simulator {simr}")
+            print(notes[-1])
+    except Exception as exc:  # real sockets unavailable: not a verdict about the property
+        notes.append(f"fidelity self-test could not run: {type(exc).__name__}: {exc}")
+    return core.Result("model_checking", cov, viol, notes=notes, assumptions=["default (prompt-time) schedule; chunk arrival vs reactor iteration is varied by the inter-chunk delay, not by scheduler deviations", "recv returns at most one sent segment per call (segment boundaries are preserved by the simulated transport)"])
 
 
 def replay(ctx, data):
